@@ -13,7 +13,9 @@
    [accepted_ops None ops]. *)
 Require Import FstV.Base FstV.Builder FstV.Fst FstV.proofs.BuilderBasics.
 
-(* one call, any builder state (reachable or not) *)
+(* one call, any builder state (reachable or not).  Clause 2 needs no "and it is not the duplicate
+   case": key_ltb k l = true already excludes k = l.  Clause 5 is the acceptance criterion of the
+   property text: strictly greater for insert, greater or equal for add. *)
 Theorem C06_reject_iff : forall (b : builder) (o : op),
   (forall k, snd (apply_op b o) = Err (EDuplicateKey k) <->
              (exists v, o = OpInsert k v) /\ b_last b = Some k) /\
@@ -70,6 +72,16 @@ Theorem C06_rejected_leave_no_trace_build : forall summer ty rows cols ops,
   build_ops summer ty rows cols (accepted_ops None ops).
 Proof. exact rejected_leave_no_trace_build. Qed.
 
+(* specification side: content and results of all calls = those of the accepted calls alone, so
+   C01 (finished bytes are a well-formed FST whose content is spec_content) applied to
+   [accepted_ops None ops] gives "the finished FST contains exactly the accepted keys and values" *)
+Theorem C06_spec_content_accepted : forall ops last acc,
+  spec_content last ops acc = spec_content last (accepted_ops last ops) acc.
+Proof. exact spec_content_accepted. Qed.
+Theorem C06_spec_calls_accepted : forall ops last,
+  Forall (fun r => r = Ok tt) (spec_calls last (accepted_ops last ops)).
+Proof. exact spec_calls_accepted. Qed.
+
 (* extend_iter / extend_stream / from_iter: the result is the first non-Ok single-call result,
    the state is the state after the accepted prefix, the error (if any) is an ordering error *)
 Theorem C06_extend_first_error : forall ops b,
@@ -118,6 +130,8 @@ Print Assumptions C06_calls_results_shape.
 Print Assumptions C06_calls_state_accepted.
 Print Assumptions C06_rejected_leave_no_trace.
 Print Assumptions C06_rejected_leave_no_trace_build.
+Print Assumptions C06_spec_content_accepted.
+Print Assumptions C06_spec_calls_accepted.
 Print Assumptions C06_extend_first_error.
 Print Assumptions C06_extend_stops_at_first_error.
 Print Assumptions C06_nonvacuous_map.
